@@ -53,6 +53,11 @@ impl<'a, T: 'a> RingBuffer<'a, T> {
     }
 }
 
+#[cfg(kani)]
+impl<'a, T: 'a> RingBuffer<'a, T> {
+    pub(crate) fn kani_read_at(&self) -> usize { self.read_at }
+}
+
 //@@ append src/iface/interface/mod.rs
 #[cfg(kani)]
 impl InterfaceInner {
